@@ -165,7 +165,8 @@ def rw_remove_workload(ver, maxbuf):
     for nm in ("d", "m"):
         ops += [{"op": "remove_stream", "name": nm}, {"op": "remove_stream", "name": nm}, {"op": "exists", "name": nm}]
     for nm, n in (("b", 4500), ("c", 4500), ("e", 4500), ("s", 100), ("t", 100), ("u", 200)):
-        ops += [{"op": "create_stream", "name": nm}, {"op": "create_stream", "name": nm}, w(n), {"op": "position"}] + FL + [{"op": "close"}]
+        ops += [{"op": "create_stream", "name": nm}, {"op": "create_stream", "name": nm},
+                {"op": "write_all", "runs": f.runs(rng, n)}, {"op": "position"}] + FL + [{"op": "close"}]
     for nm in ("b", "c", "e", "s", "t", "u", "bar", "n"):
         ops += [{"op": "open_stream", "name": nm}, {"op": "open_stream", "name": nm}, {"op": "fresh_read"}, {"op": "read_to_end"}, {"op": "close"}]
     return {"ver": ver, "maxbuf": maxbuf, "mode": "rw_faults", "streams": streams, "ops": ops}
